@@ -30,6 +30,7 @@ def run(ctx):
             state["stats"][k] = state["stats"].get(k, 0) + v
         if not hok and not any("does not build" in c for c in ctx.corr_broken):
             ctx.corr_broken.append("harness TestVerifSpk failed: " + log[-1500:])
+        state["ran"] = state.get("ran", True) and hok
         return cases
 
     cases = harness(n, ctx.seed, "h")
@@ -68,12 +69,13 @@ def run(ctx):
             ctx.corr_broken.append("model Speaker.sstep and the real speaker controller disagree (announcer contents, sessions' last Set or announced[]) "
                                    "on history %d (%s): %s" % (m, byid.get(m, {}).get("kind"), json.dumps(byid.get(m, {}).get("in"))[:900]))
     st = state["stats"]
-    if cases:
-        # only counters that do not depend on the behaviour of the code under test
-        for k in ("ev_svc", "ev_del", "ev_cfg", "ev_cfg_orphaning", "ev_node", "ev_node_flag_change", "ev_node_first_with_services_present",
-                  "ev_spk", "fresh_announces_l2", "fresh_announces_bgp", "oracle_gone_checks",
-                  "elig_history_checks", "multi_histories", "multi_contested_elections", "multi_dual_address_services",
-                  "l2_interface_checks_with_lists", "stack_histories", "stack_steps_with_same_named_services", "stack_services_expected_over_bgp",
+    # degenerate-generator guard: only counters computed from the INPUTS and the statement (never from what the code answered);
+    # a part that did not run (build failure / harness failure, reported once above) is not "degenerate"
+    if cases and state.get("ran"):
+        for k in ("ev_svc", "ev_del", "gen_del_of_service_sharing_an_address", "ev_cfg", "gen_cfg_drops_pool_of_existing_service", "ev_node", "ev_node_flag_change", "ev_node_first_with_services_present",
+                  "ev_spk", "gen_l2_advertisement_selects_this_node", "gen_l2_advertisement_with_interface_list_selects_this_node",
+                  "elig_services_expected_over_bgp", "multi_histories", "multi_contested_elections", "multi_dual_address_services",
+                  "stack_histories", "stack_steps_with_same_named_services", "stack_services_expected_over_bgp",
                   "stack_shared_configuration_checks", "stack_events_without_reload"):
             if st.get(k, 0) == 0:
                 raise vlib.Broken("generator degenerate: counter %r is zero: %r" % (k, st))
